@@ -13,7 +13,7 @@ from __future__ import annotations
 import ast
 from typing import Dict, List, Optional, Set, Tuple
 
-from ..core import AnalysisError, CheckResult, ClassInfo, Finding, ModuleInfo, Repo, norm, walk_no_nested
+from ..core import AnalysisError, CheckResult, ClassInfo, Finding, ModuleInfo, Repo, norm, walk_no_nested, func_params
 from ..paths import calls_in, enumerate_paths, step_nodes
 
 LEVEL = "other"
@@ -33,6 +33,9 @@ ASSUMPTIONS = ["predicate semantics is C10", "equivalence of the optimised route
 
 
 def run(repo: Repo, tier: str, res: CheckResult, seed: int = 0) -> None:
+    late_binding_handlers(repo, res)
+    retort_handler_overrides(repo, res)
+    facade_cache_vs_recipe(repo, res)
     combiner_typestate(repo, res)
     routers(repo, res)
     send_inner(repo, res)
@@ -669,3 +672,94 @@ def retort_as_provider(repo: Repo, res: CheckResult) -> None:
         res.add(Finding("C09", "RETORT.as-provider", m.rel, "SearchingRetort._provide_from_recipe", "mediator",
                         "the inner retort must resolve with its own mediator (own recipe and options)",
                         pf.lineno if pf else fn.lineno))
+
+
+# ------------------------------------------------------------------------------------------ handlers built in loops / overrides
+def late_binding_handlers(repo: Repo, res: CheckResult) -> None:
+    """A handler (any function) defined INSIDE a loop that reads the loop variable and outlives the iteration sees the LAST
+    value of that variable when it runs: every wrapped handler of a multi-handler provider chains from the last one (the
+    loader chain is built from the dumper function). The variable has to be bound per iteration (a factory function or a
+    default argument)."""
+    n = 0
+    for m in repo.modules.values():
+        if not any(x in m.rel for x in ("/provider/", "/retort/", "/morphing/facade/", "/conversion/facade/")):
+            continue
+        for loop in [x for x in ast.walk(m.tree) if isinstance(x, (ast.For, ast.AsyncFor))]:
+            targets = {t.id for t in ast.walk(loop.target) if isinstance(t, ast.Name)}
+            for fn in [f for st in loop.body for f in ast.walk(st) if isinstance(f, (ast.FunctionDef, ast.Lambda))]:
+                params = set(func_params(fn))
+                defaults = {norm(d) for d in (fn.args.defaults + [k for k in fn.args.kw_defaults if k is not None])}
+                body_nodes = ast.walk(fn) if isinstance(fn, ast.FunctionDef) else ast.walk(fn.body)
+                free = {x.id for x in body_nodes if isinstance(x, ast.Name) and isinstance(x.ctx, ast.Load)
+                        and x.id in targets and x.id not in params}
+                if not free:
+                    continue
+                # does the function object escape the iteration? (appended, stored into a container, returned, yielded)
+                name = fn.name if isinstance(fn, ast.FunctionDef) else None
+                escapes = False
+                for x in ast.walk(loop):
+                    if isinstance(x, ast.Call) and isinstance(x.func, ast.Attribute) and x.func.attr in ("append", "add", "extend", "insert", "setdefault") \
+                            and any((isinstance(a, ast.Name) and a.id == name) or a is fn for arg in x.args for a in ast.walk(arg)):
+                        escapes = True
+                    if isinstance(x, (ast.Yield, ast.Return)) and x.value is not None and any(
+                            (isinstance(a, ast.Name) and a.id == name) or a is fn for a in ast.walk(x.value)):
+                        escapes = True
+                    if isinstance(x, ast.Assign) and any(isinstance(t, ast.Subscript) for t in x.targets) and any(
+                            (isinstance(a, ast.Name) and a.id == name) or a is fn for a in ast.walk(x.value)):
+                        escapes = True
+                n += 1
+                res.evaluated(f"late-binding:{m.rel}:{getattr(fn, 'lineno', 0)}", True)
+                if escapes:
+                    encl = m.enclosing_function(loop)
+                    res.add(Finding("C09", "BIND.loop-variable-read-late", m.rel, m.qualname(encl) if encl is not None else "<module>",
+                                    f"{name or 'lambda'} reads loop variable(s) {sorted(free)}",
+                                    f"`{name or 'lambda'}` is defined inside `for {norm(loop.target)} in ...`, reads {sorted(free)} as free variables and "
+                                    "outlives the iteration: when it runs, the variables hold the values of the LAST iteration -- every handler "
+                                    "built by the loop uses the last wrapped handler (the loader request is answered by composing the dumper "
+                                    "function)", getattr(fn, "lineno", 0)))
+    res.count("BIND.functions-defined-in-loops", n, 0)
+    fx = ast.parse("def g(self):\n    out = []\n    for cls, checker, handler in self.p():\n        def h(m, r):\n            return handler(m, r)\n        out.append((cls, checker, h))\n    return out\n")
+    loop = next(x for x in ast.walk(fx) if isinstance(x, ast.For))
+    if not any(isinstance(f, ast.FunctionDef) for st in loop.body for f in ast.walk(st)):
+        raise AnalysisError("late-binding fixture no longer matches")
+
+
+def retort_handler_overrides(repo: Repo, res: CheckResult) -> None:
+    """A retort placed in a recipe takes part in the outer search through SearchingRetort.get_request_handlers: a request it
+    cannot serve is DECLINED (CannotProvide) and the search goes on. A facade retort that overrides the handlers and answers
+    through its public get_loader / get_dumper / load / dump turns the decline into ProviderNotFoundError: the providers
+    after the nested retort are never consulted."""
+    n = 0
+    for ci in repo.all_classes():
+        if not repo.is_subclass(ci, "SearchingRetort") or ci.name == "SearchingRetort":
+            continue
+        fn = ci.methods.get("get_request_handlers")
+        n += 1
+        res.evaluated(f"retort-handlers:{ci.name}", fn is not None)
+        if fn is None:
+            continue
+        facade_calls = sorted({norm(x) for x in ast.walk(fn) if isinstance(x, ast.Attribute) and norm(x.value) == "self"
+                               and x.attr in ("get_loader", "get_dumper", "load", "dump", "get_converter", "convert")})
+        if facade_calls:
+            res.add(Finding("C09", "RETORT.handlers-answer-through-facade", ci.module.rel, f"{ci.name}.get_request_handlers",
+                            ", ".join(facade_calls),
+                            f"{ci.name} overrides get_request_handlers and answers through {facade_calls}: the facade methods raise "
+                            "ProviderNotFoundError where a provider has to decline with CannotProvide, so a nested retort that cannot "
+                            "serve a type aborts the outer search instead of letting the next provider answer", fn.lineno))
+    res.count("RETORT.facade-classes", n, 3)
+
+
+def facade_cache_vs_recipe(repo: Repo, res: CheckResult) -> None:
+    """extend(recipe=...) PREPENDS: get_converter(src, dst, recipe=r) has to be answered by the extended retort. A cache looked up
+    on (or filled into) the retort the recipe was NOT added to serves the first converter of a type pair to every later recipe
+    (shared rule with C11 / C13)."""
+    from .c11 import facade_caches
+    fc = CheckResult("C11")
+    facade_caches(repo, fc)
+    res.evaluated("facade:cache-vs-recipe", True)
+    for f in fc.findings:
+        if "conversion/" in f.file:
+            res.add(Finding("C09", "FACADE.recipe-ignored-by-cache", f.file, f.qualname, f.construct,
+                            "the converter cache is consulted / filled on the retort that does not carry the per-call recipe: the "
+                            "providers of `recipe=` are not prepended for a type pair that was resolved before (" + f.message[:160] + ")",
+                            f.line))
